@@ -337,7 +337,9 @@ def generated_worker(chunk, seed, tier):
             with open(path, "w") as fh:
                 fh.write(text)
             for op in ("load_one", "load_many"):
-                m = FORMAT_MODULES[name]
+                m = FORMAT_MODULES.get(name)
+                if m is None:  # a module missing from the registry is reported by the registry clause
+                    break
                 if not hasattr(m, op):
                     continue
                 part.count()
